@@ -101,6 +101,13 @@ class HierDictDocument(DictDocument):
                 else:
                     doc = doc.get(class_name, None)
 
+            if doc is None and message is self.REQUEST and \
+                          ctx.descriptor.body_style is not BODY_STYLE_BARE:
+                # a null message is a message without any of its members: the
+                # function is called with a null for every argument (or the
+                # validator complains about the mandatory ones).
+                doc = {}
+
             result_message = self._doc_to_object(ctx, body_class, doc,
                                                                  self.validator)
 
